@@ -288,6 +288,13 @@ func (vc *VC) runUpdates(ins ssa.Instruction, st *State) {
 // and its ghost results by name.
 func (vc *VC) bindCallResults(ins ssa.Instruction, env *Env) {
 	if call, ok := ins.(*ssa.Call); ok {
+		// the arguments of the call just made: arg0, arg1, ... (receiver first)
+		for i, a := range call.Call.Args {
+			if av, ok := vc.tryVal(a); ok {
+				v := av
+				env.names[fmt.Sprintf("arg%d", i)] = envEntry{val: &v}
+			}
+		}
 		if rv, ok := vc.regs[call]; ok {
 			if rv.K == KTuple {
 				for i := range rv.Fs {
@@ -363,4 +370,14 @@ func (vc *VC) ghostAssign(a Assign, env *Env, st *State) {
 	nc := vc.fresh("g_"+id.Name, srt)
 	vc.define(nc, build(cur, 0, rhs.S))
 	st.pseudo[id.Name] = nc
+}
+
+// tryVal is val() for contexts where an operand may not be representable.
+func (vc *VC) tryVal(v ssa.Value) (r Val, ok bool) {
+	defer func() {
+		if e := recover(); e != nil {
+			ok = false
+		}
+	}()
+	return vc.val(v), true
 }
